@@ -24,7 +24,7 @@ func (e *FnEnc) loopFrame(li *loopInfo, pre *State, assume bool) {
 	e.allocClosureAxioms()
 	alloc0 := quoteSym("$alloc")
 	for _, k := range sortedKeys(li.mods) {
-		if k == "$alloc" || strings.HasPrefix(k, "M/") {
+		if k == "$alloc" {
 			continue
 		}
 		if _, known := e.heapSort[k]; !known {
